@@ -67,7 +67,7 @@ def parse_prost_attr(text):
             elif k == "oneof":
                 out["kind"] = "oneof"
                 out["oneof"] = v
-            elif k == "map":
+            elif k in ("map", "btree_map", "hash_map"):
                 out["kind"] = "map"
                 kk, vv = [x.strip() for x in v.split(",", 1)]
                 out["map_key"] = kk
